@@ -241,19 +241,64 @@ func genCase(r *core.Rand, conc bool) []string {
 	return ops
 }
 
+// genE2E: one end-to-end case (see e2e.go): everything is a real HTTP request through a real proxy.
+func genE2E(r *core.Rand) []string {
+	ops := []string{"tree e " + strings.Join(genTree(r).tokens(), " ")}
+	id := 0
+	n := r.Range(8, 30)
+	for i := 0; i < n; i++ {
+		x := r.Intn(100)
+		switch {
+		case x < 60:
+			m := genMsg(r, id)
+			id++
+			m.api, m.scheme = false, "http"
+			if m.path == "" {
+				m.path = "/"
+			}
+			for _, h := range []*[][]string{&m.reqH, &m.resH} {
+				var keep [][]string
+				for _, e := range *h {
+					if len(e) >= 2 {
+						keep = append(keep, e)
+					}
+				}
+				*h = keep
+			}
+			ops = append(ops, m.op())
+		case x < 76:
+			ops = append(ops, "q")
+		case x < 86:
+			ops = append(ops, "r")
+		case x < 90:
+			ops = append(ops, "cget")
+		case x < 93:
+			ops = append(ops, "qbad")
+		case x < 96:
+			ops = append(ops, "rbad")
+		default:
+			ops = append(ops, "r", "q")
+		}
+	}
+	return append(ops, "q", "r", "q")
+}
+
 func (P) Gen(r *core.Rand, tier string, emit func([]string)) {
 	// core.NewRand(seed) starts at seed*γ and steps by γ, so the streams of consecutive seeds are one
 	// draw apart and re-synchronise; restart from a mixed value to make seeds independent.
 	r = core.NewRand(r.U64())
-	nSeq, nConc, nURL := 450, 60, 6
+	nSeq, nConc, nURL, nE2E := 450, 60, 6, 30
 	if tier == "thorough" {
-		nSeq, nConc, nURL = 12000, 1500, 100
+		nSeq, nConc, nURL, nE2E = 12000, 1500, 100, 600
 	}
 	for i := 0; i < nSeq; i++ {
 		emit(genCase(r, false))
 	}
 	for i := 0; i < nConc; i++ {
 		emit(genCase(r, true))
+	}
+	for i := 0; i < nE2E; i++ {
+		emit(genE2E(r))
 	}
 	for i := 0; i < nURL; i++ {
 		var ops []string
